@@ -496,6 +496,102 @@ func c11HardEdges(c *fw.Ctx, idx int) {
 	}
 }
 
+// (v) one array of ordinates that is a closed ring both as XY (3m/2 points) and
+// as XYZ (m points, every third ordinate ignored): asked as XY, as XYZ, as XY
+// again - each answer is that of the ring the layout makes of the array
+func c11TwoLayouts(c *fw.Ctx, idx int) {
+	r := c.R
+	g := []int{4, 16, 1 << 10}[r.Intn(3)]
+	m := 2 * r.Range(2, 8)
+	flat := make([]float64, 3*m)
+	for i := range flat {
+		flat[i] = float64(r.Intn(g + 1))
+	}
+	v := float64(r.Intn(g + 1))
+	flat[0], flat[1] = v, v
+	flat[3*m-3], flat[3*m-2], flat[3*m-1] = v, v, v
+	var ring2, ring3 []ipt
+	for j := 0; j < 3*m/2; j++ {
+		ring2 = append(ring2, ipt{int64(flat[2*j]), int64(flat[2*j+1])})
+	}
+	for i := 0; i < m; i++ {
+		ring3 = append(ring3, ipt{int64(flat[3*i]), int64(flat[3*i+1])})
+	}
+	for q := 0; q < 4; q++ {
+		p := ipt{int64(r.Intn(g + 1)), int64(r.Intn(g + 1))}
+		if r.Bool() {
+			p = ring3[r.Intn(len(ring3))]
+		}
+		pc := geom.Coord{float64(p.x), float64(p.y)}
+		w2, _, _ := iLocate(p, ring2)
+		w3, _, _ := iLocate(p, ring3)
+		for k, lay := range []geom.Layout{geom.XY, geom.XYZ, geom.XY, geom.XYZ} {
+			want := w2
+			if lay == geom.XYZ {
+				want = w3
+			}
+			var got location.Type
+			if c.Guard("panic", func() { got = xy.LocatePointInRing(lay, pc, flat) }) {
+				return
+			}
+			c.Eval(1)
+			c.Count("one_array_asked_under_two_layouts")
+			if got != want {
+				c.SetInput(map[string]any{"point": fmt.Sprintf("(%d %d)", p.x, p.y), "array": fw.Fs(flat), "asked_as": lay.String(), "call": k + 1, "of": "XY, XYZ, XY, XYZ on the same array"})
+				c.Fail("wrong-location", "LocatePointInRing(%s, ...) = %s on call %d of XY/XYZ/XY/XYZ over one array, exact answer for that layout is %s", lay, got, k+1, want)
+				return
+			}
+		}
+	}
+	c.Distinct(fmt.Sprintf("two/%d/%d", g, idx))
+}
+
+// (vi) rings of 8,192 .. 20,000 vertices (star-shaped around the origin), with
+// query points on vertices, on edges, on chords between far-apart vertices (the
+// first vertex and the ones around the middle of the list among them), inside and outside
+func c11HugeRings(c *fw.Ctx, idx int) {
+	r := c.R
+	n := []int{8192, 8193, 8191, 16384, 16385, 10000, 20000, 12289}[r.Intn(8)] + r.Intn(3)
+	R := float64(int64(1) << 24)
+	ring := make([]ipt, 0, n+1)
+	for i := 0; i < n; i++ {
+		a := 2 * math.Pi * float64(i) / float64(n)
+		rad := R * (0.6 + 0.4*r.Float01())
+		// even coordinates: midpoints of chords are lattice points
+		ring = append(ring, ipt{2 * int64(math.Round(rad*math.Cos(a)/2)), 2 * int64(math.Round(rad*math.Sin(a)/2))})
+	}
+	ring = append(ring, ring[0])
+	c.SetInput(map[string]any{"ring": fmt.Sprintf("star-shaped ring of %d vertices around the origin, radii 0.6..1 x 2^24, even coordinates; regenerated from the seed and case index", n)})
+	flat := flatRing(ring, 2, nil)
+	var qs []ipt
+	mid := func(a, b ipt) ipt { return ipt{(a.x + b.x) / 2, (a.y + b.y) / 2} }
+	for _, j := range []int{n / 2, n/2 + 1, n/2 - 1, n / 4, n / 3, n - 2, 1, 2} {
+		qs = append(qs, mid(ring[0], ring[j]), ring[j])
+	}
+	for k := 0; k < 6; k++ {
+		i, j := r.Intn(n), r.Intn(n)
+		qs = append(qs, mid(ring[i], ring[j]), mid(ring[i], ring[(i+1)%n]))
+	}
+	qs = append(qs, ipt{0, 0}, ipt{int64(R) * 2, 0}, ipt{int64(R), int64(R)})
+	for _, p := range qs {
+		want, _, _ := iLocate(p, ring)
+		var got location.Type
+		var in bool
+		pc := geom.Coord{float64(p.x), float64(p.y)}
+		if c.Guard("panic", func() { got = xy.LocatePointInRing(geom.XY, pc, flat); in = xy.IsPointInRing(geom.XY, pc, flat) }) {
+			return
+		}
+		c.Eval(2)
+		c.Count("huge_ring_queries")
+		if got != want || in != (want != location.Exterior) {
+			c.SetInput(map[string]any{"ring": fmt.Sprintf("star-shaped ring of %d vertices (regenerated from the seed and case index)", n), "point": fmt.Sprintf("(%d %d)", p.x, p.y)})
+			c.Fail("wrong-location", "ring of %d vertices: LocatePointInRing = %s, IsPointInRing = %v, exact answer %s", n, got, in, want)
+			return
+		}
+	}
+	c.Distinct(fmt.Sprintf("hugering/%d/%d", n, idx))
+}
+
 func c11OnLine(c *fw.Ctx, idx int) {
 	if c.R.Chance(1, 64) {
 		xyRefusedCalls(c)
@@ -687,6 +783,8 @@ func init() {
 			{Name: "random-rings", Quick: 60000, Thorough: 1500000, Run: c11Random},
 			{Name: "on-line", Quick: 150000, Thorough: 3000000, Run: c11OnLine},
 			{Name: "hard-edges", Quick: 20000, Thorough: 600000, Run: c11HardEdges},
+			{Name: "one-array-two-layouts", Quick: 20000, Thorough: 400000, Run: c11TwoLayouts},
+			{Name: "huge-rings", Quick: 24, Thorough: 600, Chunk: 2, Run: c11HugeRings},
 		},
 		Require: []string{"loc_interior", "loc_boundary", "loc_exterior", "on_vertex", "on_edge_interior", "ray_through_vertex", "horizontal_edge_on_ray", "variant_sets", "online_true", "online_false", "online_float_inputs"},
 	})
